@@ -7,6 +7,7 @@ import (
 	ipfslog "berty.tech/go-ipfs-log"
 	"berty.tech/go-orbit-db/iface"
 	"berty.tech/go-orbit-db/stores/operation"
+	"berty.tech/go-orbit-db/verifhook"
 )
 
 type documentIndex struct {
@@ -50,6 +51,7 @@ func (i *documentIndex) Get(key string) interface{} {
 func (i *documentIndex) UpdateIndex(oplog ipfslog.Log, _ []ipfslog.Entry) error {
 	entries := oplog.Values().Slice()
 	size := len(entries)
+	verifhook.At("index.read", i, oplog, size)
 
 	handled := map[string]struct{}{}
 
